@@ -2,6 +2,7 @@ import PPProofs.Props.C11
 import PPProofs.Props.C11Heap
 import PPProofs.Props.C11FromDict
 import PPProofs.Props.C11Deep
+import PPProofs.Props.C11DeepC
 #print axioms PP.PR.copy_preserves
 #print axioms PP.PR.pickle_roundtrip
 #print axioms PP.PR.copy_same_answers
@@ -30,6 +31,9 @@ import PPProofs.Props.C11Deep
 #print axioms PP.PRHeap.deepObjN_drel
 #print axioms PP.PRHeap.deepObjN_rel
 #print axioms PP.PRHeap.deepObjN_spec
+#print axioms PP.PRHeap.deepcopyC_tokens_fresh
+#print axioms PP.PRHeap.deepcopyC_frame_tokens
+#print axioms PP.PRHeap.deepcopyC_corr
 #print axioms PP.PRHeap.frame_step
 #print axioms PP.PRHeap.frame_all
 #print axioms PP.PRHeap.copy_frame
